@@ -31,3 +31,11 @@ META = {
             "F1 (failed store Set still commits and acks) and F12 (ack gap after exhausted retries).",
     "technique": "Lean 4 invariant proofs over an event system + trace-acceptance correspondence against the real code",
 }
+
+# engine side of "the position only moves forward": the positions the arch-v2 engine hands to Source.Ack (event-log equality of the
+# real funnel.Worker with the Lean engine model; Worker.Nack refuses to acknowledge a prefix that holds an empty source position)
+from funnel_common import funnel_job
+PROP["jobs"].append(funnel_job("C02", 4000, 100000))
+PROP["lean_modules"] += ["ConduitModel.Props.C04"]
+PROP["rule"] += (" || funnel: see C04/C09 (one case = tree, window, batches, plugin scripts; a tenth of the cases from the bad-source-position "
+                 "family: empty / nil source positions meeting nacks, partial DLQ acknowledgments and window refusals)")
